@@ -145,6 +145,7 @@ func checkC09(c c09Case) *evid.Fail { return checkC09With(nil, c) }
 func checkC09With(configured *csv.CsvTokenizer, c c09Case) *evid.Fail {
 	text, quoted := c09Write(c)
 	var toks []tk
+	var strs, strs2 []string
 	if g := guard(func() {
 		t := configured
 		if t == nil {
@@ -155,8 +156,22 @@ func checkC09With(configured *csv.CsvTokenizer, c c09Case) *evid.Fail {
 		for _, x := range t.TokenizeBuffer(text) {
 			toks = append(toks, tk{x.Type(), x.Value(), x.Line(), x.Column()})
 		}
+		// the string-list entry points read the same text: one string per token, empty fields included
+		if len(text) < 400 {
+			strs = t.TokenizeBufferToStrings(text)
+			strs2 = t.TokenizeStreamToStrings(rio.NewStringScanner(text))
+		}
 	}); g != nil {
 		return g
+	}
+	if len(text) < 400 {
+		vals := make([]string, len(toks))
+		for i, t := range toks {
+			vals[i] = t.V
+		}
+		if fmt.Sprintf("%q", strs) != fmt.Sprintf("%q", vals) || fmt.Sprintf("%q", strs2) != fmt.Sprintf("%q", vals) {
+			return evid.F("tostrings-differs", "text %q: the token values are %q, TokenizeBufferToStrings gives %q, TokenizeStreamToStrings %q", text, vals, strs, strs2)
+		}
 	}
 	desc := func() string {
 		return fmt.Sprintf("separators %q quotes %q eol %q table %q written as %q; tokens %s", string(c.Seps), string(c.Quotes), c.Eol, c.Table, text, tksString(toks))
@@ -481,4 +496,83 @@ func TestC09_Rapid(t *testing.T) {
 		}
 	})
 	requireLabels(t, rec, "non-latin-separator", "non-latin-quote", "eol:\"\\n\\r\"", "eol:\"\\r\"")
+}
+
+// ---------------------------------------------------------------------------------------
+// Sizes: one field of N characters (raw and quoted, Latin and not) between two short ones, and N rows / N fields,
+// around the powers of two up to 2^16, described rather than spelled out.
+
+type c09BigCase struct {
+	Shape string `json:"shape"` // raw | quoted | nonlatin | rows | fields
+	N     int    `json:"n"`
+	Cfg   int    `json:"cfg"`
+}
+
+func (c c09BigCase) build() c09Case {
+	out := c09Case{Seps: []rune{','}, Quotes: []rune{'"'}, Eol: "\r\n"}
+	if c.Cfg == 1 {
+		out = c09Case{Seps: []rune{';', '，'}, Quotes: []rune{'\'', '«'}, Eol: "\n"}
+	}
+	switch c.Shape {
+	case "raw":
+		out.Table = [][]string{{"a", strings.Repeat("w", c.N), "b"}, {strings.Repeat("x y", c.N/3+1), "z"}}
+	case "nonlatin":
+		out.Table = [][]string{{"a", strings.Repeat("é中", c.N/2+1), "b"}}
+	case "quoted":
+		out.Table = [][]string{{"a", strings.Repeat("q,\"\n", c.N/4+1), "b"}}
+	case "rows":
+		for i := 0; i < c.N; i++ {
+			out.Table = append(out.Table, []string{"r", ""})
+		}
+	case "fields":
+		row := make([]string, c.N)
+		for i := range row {
+			row[i] = []string{"f", "", "1 2"}[i%3]
+		}
+		out.Table = [][]string{row, {"end"}}
+	}
+	return out
+}
+
+func checkC09Big(c c09BigCase) *evid.Fail {
+	f := checkC09(c.build())
+	if f != nil {
+		if len(f.Msg) > 500 {
+			f.Msg = f.Msg[:250] + " ... " + f.Msg[len(f.Msg)-250:]
+		}
+		f.Msg = fmt.Sprintf("%s of size %d (configuration %d): %s", c.Shape, c.N, c.Cfg, f.Msg)
+	}
+	return f
+}
+
+func init() { regReplay("C09.big", checkC09Big) }
+
+func TestC09_EnumSizes(t *testing.T) {
+	rec := evid.New("C09", "TestC09_EnumSizes", "C09.big", c09Rule+"; sizes: one raw / non-Latin / quoted field of 2^k-1, 2^k, 2^k+1 characters (k = 5..16, and 1500, 3000), tables of 2^k rows and rows of 2^k fields (k = 5..12), x 2 configurations")
+	rec.Exhaustive = true
+	rec.DupFree = true
+	defer finish(t, rec)
+	var cases []c09BigCase
+	for cfg := 0; cfg < 2; cfg++ {
+		for _, shape := range []string{"raw", "nonlatin", "quoted"} {
+			sizes := []int{1500, 3000}
+			for k := 5; k <= pick(15, 16); k++ {
+				sizes = append(sizes, 1<<uint(k)-1, 1<<uint(k), 1<<uint(k)+1)
+			}
+			for _, n := range sizes {
+				cases = append(cases, c09BigCase{shape, n, cfg})
+			}
+		}
+		for k := 5; k <= 12; k++ {
+			cases = append(cases, c09BigCase{"rows", 1 << uint(k), cfg}, c09BigCase{"fields", 1<<uint(k) + 1, cfg})
+		}
+	}
+	rec.Bounds = fmt.Sprintf("%d described tables", len(cases))
+	parallelFor(len(cases), func(i int) {
+		c := cases[i]
+		rec.Case(jsonStr(c), true, func() interface{} { return c }, "shape:"+c.Shape)
+		if f := checkC09Big(c); f != nil {
+			rec.Fail(f, c)
+		}
+	})
 }
